@@ -133,6 +133,13 @@ def build_world(scen_seed):
         # the same for lanelet boundaries: one lanelet whose vertex values all scenarios of the case share, one of its own
         sc.add_objects(_fine_lanelet(80, shared_xs, 60 + math.sqrt(2), 63 + math.e))
         sc.add_objects(_fine_lanelet(81, [rng.uniform(0, 30) for _ in range(2)], 70 + rng.random(), 73 + rng.random()))
+        # two adjacent lanelets that hold ONE array object for their common boundary (value-equal to two arrays)
+        xs2 = [0.0, 4.0, 9.5, 15.25]
+        lo = np.array([[x, 80.0] for x in xs2])
+        mid = np.array([[x, 83.5] for x in xs2])
+        hi = np.array([[x, 87.0] for x in xs2])
+        sc.add_objects([Lanelet(mid, (mid + lo) / 2.0, lo, 85, adjacent_left=86, adjacent_left_same_direction=True),
+                        Lanelet(hi, (hi + mid) / 2.0, mid, 86, adjacent_right=85, adjacent_right_same_direction=True)])
         sc.author, sc.affiliation, sc.source = f"author{i}", f"affiliation{i}", f"source{i}"
         sc.tags = {Tag.URBAN, Tag.HIGHWAY} if i % 2 == 0 else {Tag.INTERSECTION}
         pps = scen.rand_planning_problem_set(rng, first_id=900 + 10 * i)
